@@ -762,6 +762,20 @@ func c02Case(t *core.T, reqs int) {
 		if i == 0 {
 			t.Sample(map[string]interface{}{"coin_shape": shape, "config": cfg, "first_request": r.String()})
 		}
+		// sometimes another wallet of the same manager is selected (and looked at) before this one is
+		// selected again: the drafts handed out so far stay outstanding
+		if len(wd.Keys) > 1 && t.R.Chance(20) {
+			if _, err := wd.W.W.UseWallet(wd.Keys[1].ID); err != nil {
+				t.Fatalf("use other wallet: %v", err)
+			}
+			if t.R.Bool() {
+				wd.W.W.WalletBalance(1, false)
+			}
+			if _, err := wd.W.W.UseWallet(k.ID); err != nil {
+				t.Fatalf("use wallet again: %v", err)
+			}
+			t.Count("wallet_switches_between_drafts", 1)
+		}
 		// sometimes a block passes (maturing coinbases); reservations persist
 		if t.R.Chance(15) {
 			b, err := wd.BuildBlockAvoiding(wd.N.Tip(), nil, 0, map[wire.OutPoint]bool{})
